@@ -69,11 +69,17 @@ func (propC01) Gen(seed uint64, ex map[string]bool) interface{} {
 	sc.ClockStep = pick(r, []int64{0, 1e6, 1e9, 3600e9})
 	sc.Engines = r.Range(1, 3)
 	np := r.Range(1, 3)
+	maxOps := 40
+	if ex["tier:thorough"] {
+		sc.Engines = r.Range(1, 4)
+		np = r.Range(1, 4)
+		maxOps = 120
+	}
 	for i := 0; i < np; i++ {
 		f := Feat{Spies: true, MapLoops: true, Include: r.P(70), Inherit: r.P(50), Macros: r.P(50), ErrorsPct: 20, Dashes: true, Sandbox: true, SpyPrefix: fmt.Sprintf("p%d_", i)}
 		sc.Progs = append(sc.Progs, genProgram(r, f))
 	}
-	nops := r.Range(5, 40)
+	nops := r.Range(5, maxOps)
 	reg := map[[2]int]bool{}
 	for i := 0; i < nops; i++ {
 		e, p := r.N(sc.Engines), r.N(np)
